@@ -28,7 +28,8 @@ def parseOp (ws : List String) : Option Op :=
   | _ => none
 
 def fmtState (s : State) : String :=
-  let ks := isort (s.accts.map (·.1))
+  -- empty records (balance 0, no lock) read like missing ones through every API: not printed (the harness does the same)
+  let ks := (isort (s.accts.map (·.1))).filter (fun k => let a := getAcc s.accts k; !(a.bal == 0 && a.till == 0 && a.parent.isEmpty))
   let items := ks.map (fun k => let a := getAcc s.accts k; s!"{hexOf k}:{a.bal}:{a.till}:{hexOf a.parent}")
   s!"supply={s.supply} accts=[{joinWith ";" items}]"
 
